@@ -2,7 +2,7 @@
    Proofs/TagsSpec.lean, Proofs/TagsSpell.lean. -/
 import Frugal.Tags
 import Frugal.Proofs.TagsSpell
-import Frugal.Props.Instances
+import Frugal.Props.Inst.F_skeleton_resolver
 namespace Frugal.C12
 open Frugal
 
